@@ -1,1 +1,98 @@
-From GV_h265 Require Import Model.
+(* rtph265: resynchronisation after arbitrary damage (C07).  After ANY packet history one intact
+   access unit leaves the decoder clean (whatever it emits); the next intact one is then returned
+   exactly at its last packet. *)
+From GVL Require Import NList Wire Chunks Rtp.
+From GVG Require Import Consts.
+From GV_h265 Require Import Model ProofsEnc ProofsDec ProofsRound.
+From Coq Require Import ZifyBool ZifyNat ZifyN.
+Open Scope N_scope.
+
+Definition fbI (d : dstate) : Prop :=
+  dfblen d = nlen (dfb d) /\ dfbsize d = sum_len (dfb d) /\ nlen (dfb d) <= maxn /\ sum_len (dfb d) <= cap.
+Definition fclear (d : dstate) : Prop := dfrags d = [] /\ dfsize d = 0.
+
+Lemma inv_fbI P s d : Inv P s d -> fbI d.
+Proof. intros (_ & _ & _ & H4 & H5 & H6 & H7). unfold fbI. repeat split; lia. Qed.
+
+Lemma clean_of d : fclear d -> fbI d -> dfb d = [] -> clean d.
+Proof.
+  intros [F1 F2] (B1 & B2 & _ & _) E. unfold clean. rewrite E in *. cbn [nlen sum_len] in *. tauto.
+Qed.
+
+(* what Decode does with the NAL units of one batch, from any frame-buffer state: it adds them or
+   drops everything; with the marker the frame buffer is empty afterwards in both cases *)
+Lemma post_cases d nx b m : fbI d ->
+  fclear (fst (post (clear_frags d nx, NOk b) m)) /\ fbI (fst (post (clear_frags d nx, NOk b) m)) /\
+  (m = true -> dfb (fst (post (clear_frags d nx, NOk b) m)) = []).
+Proof.
+  intros (B1 & B2 & B3 & B4). unfold post.
+  change (dfb (clear_frags d nx)) with (dfb d). change (dfblen (clear_frags d nx)) with (dfblen d).
+  change (dfbsize (clear_frags d nx)) with (dfbsize d).
+  assert (Hzero : 0 <= maxn /\ 0 <= cap) by (split; lia).
+  destruct (N.ltb_spec maxn (dfblen d + nlen b)); cbn [fst].
+  { split; [split; reflexivity|]. split; [unfold fbI; cbn; repeat split; lia|reflexivity]. }
+  destruct (N.ltb_spec cap (dfbsize d + sum_len b)); cbn [fst].
+  { split; [split; reflexivity|]. split; [unfold fbI; cbn; repeat split; lia|reflexivity]. }
+  destruct m; cbn [negb fst].
+  - split; [split; reflexivity|]. split; [unfold fbI; cbn; repeat split; lia|reflexivity].
+  - split; [split; reflexivity|]. split; [|discriminate].
+    unfold fbI; cbn [set_fb dfb dfblen dfbsize]. rewrite nlen_app, sum_len_app. repeat split; lia.
+Qed.
+
+Lemma absorb_batches max : 4 <= max -> max <= 65538 -> forall bs d s, bs <> [] ->
+  Forall (batch_ok max) bs -> s < 65536 -> fbI d ->
+  exists protos, write_batches max bs = (protos, SOk) /\
+    clean (fst (dec_run d (number s protos))).
+Proof.
+  intros Hm HM. induction bs as [|b t IH]; intros d s Hne Hall Hs Hfb; [contradiction|].
+  inversion Hall as [|? ? Hb Ht]; subst. cbn [write_batches].
+  destruct t as [|b2 t2].
+  - destruct (batch_run max true b d s Hm HM Hb Hs) as (protos & nx & -> & _ & Hrun).
+    exists protos. split; [reflexivity|]. rewrite Hrun.
+    destruct (post_cases d nx b true Hfb) as (F & B & C).
+    destruct (post (clear_frags d nx, NOk b) true) as [d2 r]. cbn [fst] in *.
+    apply clean_of; auto.
+  - destruct (batch_run max false b d s Hm HM Hb Hs) as (x & nx & -> & _ & Hrun).
+    destruct (post_cases d nx b false Hfb) as (F & B & _).
+    destruct (post (clear_frags d nx, NOk b) false) as [d2 r] eqn:Ep. cbn [fst] in *.
+    destruct (IH d2 (seq_add s (nlen x))) as (y & Hw & Hcl).
+    + discriminate.
+    + assumption.
+    + apply seq_add_lt.
+    + assumption.
+    + rewrite Hw. exists (x ++ y). split; [reflexivity|].
+      rewrite number_app by assumption. rewrite dec_run_app, Hrun.
+      destruct (dec_run d2 _) as [d3 rs3]. cbn [fst] in *. exact Hcl.
+Qed.
+
+(* an intact access unit absorbs any earlier damage *)
+Theorem absorb max hist au s : 4 <= max -> max <= 65538 -> s < 65536 -> valid_frame au ->
+  exists ps, enc max s au = (Some ps, SOk, seq_add s (nlen ps)) /\
+    clean (fst (dec_run (fst (dec_run dinit hist)) ps)).
+Proof.
+  intros Hm HM Hs Hv.
+  destruct (hist_bound hist) as [P HP].
+  pose proof (dec_run_inv P false hist dinit (inv_init _ _) HP) as (HI & _ & _).
+  pose proof (batches_valid max au Hm Hv) as Hb.
+  destruct (absorb_batches max Hm HM (batches max [] au) (fst (dec_run dinit hist)) s) as (protos & Hw & Hcl).
+  - apply batches_ne.
+  - assumption.
+  - assumption.
+  - eapply inv_fbI; eassumption.
+  - unfold enc, enc_protos. rewrite Hw. exists (number s protos). rewrite number_len. split; [reflexivity|assumption].
+Qed.
+
+(* arbitrary history, then two intact access units: the second one is returned at its last packet *)
+Theorem resync max hist au1 au2 s1 s2 : 4 <= max -> max <= 65538 -> s1 < 65536 -> s2 < 65536 ->
+  valid_frame au1 -> valid_frame au2 ->
+  exists ps1 ps2, enc max s1 au1 = (Some ps1, SOk, seq_add s1 (nlen ps1)) /\
+    enc max s2 au2 = (Some ps2, SOk, seq_add s2 (nlen ps2)) /\
+    let d0 := fst (dec_run dinit hist) in
+    let d1 := fst (dec_run d0 ps1) in
+    exists d2, dec_run d1 ps2 = (d2, repeat DMore (length ps2 - 1) ++ [DFrame au2]) /\ clean d2.
+Proof.
+  intros Hm HM Hs1 Hs2 Hv1 Hv2.
+  destruct (absorb max hist au1 s1 Hm HM Hs1 Hv1) as (ps1 & He1 & Hcl).
+  destruct (roundtrip max s2 au2 _ Hm HM Hs2 Hv2 Hcl) as (ps2 & d2 & He2 & Hr & Hc2).
+  exists ps1, ps2. split; [assumption|]. split; [assumption|]. cbn zeta. exists d2. tauto.
+Qed.
